@@ -21,6 +21,36 @@ func (r *MacroRule) RunPass(ctx *Context, pass Pass) {
 		}
 	}
 	r.Expr.RunPass(ctx, pass)
+
+	// A macro that no token or fragment uses is never expanded, so NFACons would
+	// not notice that it is part of a reference cycle. References were resolved
+	// by the Check pass.
+	if pass == Normalize && r.inCycle() {
+		ctx.Errs.Errorf(ctx.Position(r), "macro cycle detected")
+	}
+}
+
+// inCycle returns whether the macro references itself, directly or through
+// other macros.
+func (r *MacroRule) inCycle() bool {
+	visited := make(map[*MacroRule]bool)
+	var reaches func(m *MacroRule) bool
+	reaches = func(m *MacroRule) bool {
+		for _, ref := range m.Expr.macroRefs(nil) {
+			if ref == r {
+				return true
+			}
+			if visited[ref] {
+				continue
+			}
+			visited[ref] = true
+			if reaches(ref) {
+				return true
+			}
+		}
+		return false
+	}
+	return reaches(r)
 }
 
 func (r *MacroRule) NFACons(ctx *Context) *mode.NFAComposite {
